@@ -42,6 +42,49 @@ func (h *capHook) Recv(ctx context.Context, r capnp.Recv) capnp.PipelineCaller {
 	return nil
 }
 func (h *capHook) Brand() capnp.Brand { return capnp.Brand{Value: h.id} }
+
+// pendHook stands behind a capability-table entry made with NewPromisedClient: until the harness
+// fulfils the promise (with the capHook of the same id, just before a copy), the entry is a pending
+// promise; afterwards it is a resolved client that nothing has touched yet.
+type pendHook struct {
+	r        *run
+	id       int
+	shutdown int
+}
+
+func (h *pendHook) Send(ctx context.Context, s capnp.Send) (*capnp.Answer, capnp.ReleaseFunc) {
+	return capnp.ErrorAnswer(s.Method, errors.New("buildsim pending hook")), func() {}
+}
+func (h *pendHook) Recv(ctx context.Context, r capnp.Recv) capnp.PipelineCaller {
+	r.Reject(errors.New("buildsim pending hook"))
+	return nil
+}
+func (h *pendHook) Brand() capnp.Brand { return capnp.Brand{Value: h.id} }
+func (h *pendHook) Shutdown() {
+	h.shutdown++
+	if h.shutdown > 1 {
+		h.r.fail("shutdown_twice", "capability.go:Shutdown", fmt.Sprintf("the hook of a promised capability (for hook %d) was shut down %d times", h.id, h.shutdown))
+	}
+}
+
+type pendingCap struct {
+	p    *capnp.ClientPromise
+	h    *capHook
+	hook *pendHook
+}
+
+// fulfilPending resolves every promised capability-table entry to its capability.  The table
+// entries are left as they are: resolved, but not yet looked at by anyone.
+func (r *run) fulfilPending() {
+	for _, pc := range r.pending {
+		pc.p.Fulfill(pc.h.client)
+		if pc.hook.shutdown != 1 && !r.failed() {
+			r.fail("shutdown_count", "capability.go:(*ClientPromise).Fulfill", fmt.Sprintf("the hook given to NewPromisedClient was shut down %d times when Fulfill returned (want 1)", pc.hook.shutdown))
+		}
+		r.s.Probe("promised_capability_fulfilled_before_copy")
+	}
+	r.pending = nil
+}
 func (h *capHook) Shutdown() {
 	h.shutdown++
 	r := h.r
@@ -86,6 +129,7 @@ type run struct {
 	prop     string
 	nodes    []*node
 	hooks    []*capHook
+	pending  []*pendingCap
 	ops      int
 	dropping bool
 	desc     []string
@@ -129,8 +173,12 @@ func (r *run) newNode() *node {
 		arena = capnp.MultiSegment(nil)
 		n.arenaStr = "MultiSegment(nil)"
 	default:
+		// (the draw was widened from 4 to 8: the upper half gives every buffer a capacity that is
+		// not a whole number of words, as a caller-supplied buffer may have)
+		sl := s.Choice("slack", 8)
 		cfg := simarena.Config{
-			Slack:     s.Choice("slack", 4),
+			Slack:     sl % 4,
+			OddCap:    []int{0, 0, 0, 0, 4, 1, 7, 3}[sl],
 			AlwaysNew: s.Chance("always-new", 1, 3),
 			Dirty:     s.Chance("dirty", 1, 2),
 			FirstCap:  []int{0, 8, 16, 64}[s.Choice("firstcap", 4)],
@@ -147,6 +195,9 @@ func (r *run) newNode() *node {
 		}
 		if cfg.Slack == 0 {
 			s.Fault("exact_fit")
+		}
+		if cfg.OddCap != 0 {
+			s.Fault("capacity_not_word_multiple")
 		}
 		if cfg.AlwaysNew {
 			s.Fault("always_new_segment")
@@ -534,7 +585,16 @@ func (r *run) newValue(n *node, seg *capnp.Segment, depth int, allowCap bool) (c
 		return l.ToPtr(), m, nil
 	case k == 6 && allowCap: // capability
 		h := r.someHook()
-		id := n.msg.AddCap(h.client.AddRef())
+		var id capnp.CapabilityID
+		if s.Choice("cap-promised", 3) == 0 {
+			ph := &pendHook{r: r, id: h.id}
+			c, p := capnp.NewPromisedClient(ph)
+			id = n.msg.AddCap(c)
+			r.pending = append(r.pending, &pendingCap{p: p, h: h, hook: ph})
+			s.Probe("promised_capability_in_table")
+		} else {
+			id = n.msg.AddCap(h.client.AddRef())
+		}
 		n.capTable = append(n.capTable, h.id)
 		return capnp.NewInterface(seg, id).ToPtr(), &wire.Value{Kind: wire.KCap, CapIndex: uint32(h.id)}, nil
 	case k == 7: // text list / data list through the typed helpers
@@ -785,7 +845,13 @@ func (r *run) opCopy(dstN *node) {
 	}
 	r.ops++
 	same := srcN == dstN
-	op := s.Choice("copy-op", 6)
+	if len(r.pending) > 0 && s.Choice("fulfil-before-copy", 2) == 0 {
+		r.fulfilPending()
+		if r.failed() {
+			return
+		}
+	}
+	op := s.Choice("copy-op", 7) // (widened from 6; 6 = member of a non-composite list viewed as a struct)
 	s.Logf("copy op %d: src node %d %s %s -> dst node %d %s %s", op, srcN.id, src.path, clip(src.m.String()), dstN.id, dst.path, clip(dst.m.String()))
 	switch {
 	case op <= 1 && len(dst.m.Ptrs) > 0 && len(src.m.Ptrs) > 0:
@@ -865,6 +931,37 @@ func (r *run) opCopy(dstN *node) {
 				r.modelCopyInto(dstN, p.Items[j], src.m, srcN)
 				return
 			}
+		}
+	case op == 6 && len(dst.m.Ptrs) > 0:
+		// dst.pI = element j of a List(UInt64) / pointer list of src, read as a struct (what code
+		// generated from a newer schema does after the element type was upgraded to a struct).
+		// Such a struct is a list member: assigning it copies it, also within one message.
+		for k, lp := range src.m.Ptrs {
+			if lp.Kind != wire.KList || lp.Count == 0 || (lp.Elem != wire.EEight && lp.Elem != wire.EPtr) {
+				continue
+			}
+			if same && contains(lp, dst.m) {
+				return
+			}
+			p, err := src.st.Ptr(uint16(k))
+			if err != nil {
+				r.fail("readback_mismatch", "struct.go:(*Struct).Ptr", fmt.Sprintf("%s.p%d: %v", src.path, k, err))
+				return
+			}
+			j := s.Choice("elem", lp.Count)
+			es := p.List().Struct(j)
+			var sm *wire.Value
+			if lp.Elem == wire.EEight {
+				sm = newStructModel(1, 0)
+				copy(sm.Data, lp.Bytes[8*j:8*j+8])
+			} else {
+				sm = newStructModel(0, 1)
+				sm.Ptrs[0] = lp.Items[j]
+			}
+			i := s.Choice("ptr", len(dst.m.Ptrs))
+			s.Probe("noncomposite_list_member_copied_as_struct")
+			r.doSetPtr(dst, i, es.ToPtr(), sm, srcN, "SetPtr(member of a non-composite list read as a struct)")
+			return
 		}
 	case op == 5 && !same: // SetRoot with a struct of another message
 		err := dstN.msg.SetRoot(src.st.ToPtr())
@@ -1378,6 +1475,17 @@ func (r *run) checkCanonical() {
 			return
 		}
 		s.Probe("canonical_checked")
+		// the caller owns the result: later calls must leave it alone (held is the slice as
+		// returned, got a private copy that everything below is compared with)
+		held := got
+		got = append([]byte(nil), got...)
+		stable := func(after string) bool {
+			if !bytes.Equal(held, got) {
+				r.fail("canonical_mismatch", site, fmt.Sprintf("the bytes returned by an earlier Canonicalize call changed during a later call (%s)\n returned %x\n now      %x", after, got, held))
+				return false
+			}
+			return true
+		}
 		// idempotence: canonicalising the canonical message returns it unchanged
 		m2 := &capnp.Message{Arena: capnp.SingleSegment(append([]byte(nil), got...))}
 		p2, err := m2.Root()
@@ -1385,6 +1493,9 @@ func (r *run) checkCanonical() {
 			again, err := capnp.Canonicalize(p2.Struct())
 			if err != nil || !bytes.Equal(again, got) {
 				r.fail("canonical_mismatch", site, fmt.Sprintf("canonicalising a canonical message changed it (err=%v)\n first  %x\n second %x", err, got, again))
+				return
+			}
+			if !stable("of the canonical message itself") {
 				return
 			}
 		}
@@ -1398,6 +1509,9 @@ func (r *run) checkCanonical() {
 				return
 			}
 			s.Probe("canonical_replica_checked")
+			if !stable("of another encoding of the same value") {
+				return
+			}
 		}
 		// ... and a producer that leaves garbage in the alignment padding of its sub-word lists
 		segs = wire.Encode(a.m, wire.EncOpts{DirtyPadding: true})
@@ -1426,6 +1540,9 @@ func (r *run) checkCanonical() {
 			}
 			if err != nil {
 				s.Probe("canonicalize_stopped_by_read_limit")
+			}
+			if !stable("that ran under a read limit") {
+				return
 			}
 		}
 		padded := padValue(a.m, func(n int) int { return s.Choice("pad", n) })
@@ -1609,6 +1726,16 @@ func (Engine) Run(t *testing.T, tape *simrt.Tape, opt worker.Options) *worker.Ou
 					if !tainted || h.shutdown > 1 {
 						r.fail("shutdown_count", "segment.go:(*Segment).writePtr", fmt.Sprintf("capability hook %d was shut down %d times after every message was reset and the harness dropped its reference (want 1)", h.id, h.shutdown))
 					}
+				}
+			}
+			for _, pc := range r.pending {
+				// never fulfilled: the promised client in the table was the only reference
+				tainted := false
+				for _, n := range r.nodes {
+					tainted = tainted || n.tainted
+				}
+				if pc.hook.shutdown != 1 && !tainted && !r.failed() {
+					r.fail("shutdown_count", "capability.go:(*Client).Release", fmt.Sprintf("the hook of a never-fulfilled promised capability (for hook %d) was shut down %d times after every message was reset (want 1)", pc.h.id, pc.hook.shutdown))
 				}
 			}
 		}
